@@ -16,6 +16,7 @@ import (
 	"errors"
 	"io"
 	"net/http"
+	"sync"
 )
 
 //verif:stub (*encoding/base64.Encoding).DecodeString stubB64Decode
@@ -24,6 +25,9 @@ import (
 //verif:stub (*net/http.Transport).Clone stubTransportClone
 //verif:stub (*net/http.Client).Post stubClientPost
 //verif:stub crypto/tls.NewLRUClientSessionCache stubSessionCache
+//verif:stub (*sync.Map).Load stubSyncMapLoad
+//verif:stub (*sync.Map).Store stubSyncMapStore
+//verif:stub (*sync.Map).LoadOrStore stubSyncMapLoadOrStore
 
 var (
 	stubDecodeLen  int  // length of the decoded fingerprint
@@ -44,6 +48,13 @@ func stubB64Decode(enc *base64.Encoding, s string) ([]byte, error) {
 	if stubFixedFP {
 		if s == zeroFP {
 			return make([]byte, 32), nil
+		}
+		if s == oneFP {
+			b := make([]byte, 32)
+			for i := range b {
+				b[i] = 1
+			}
+			return b, nil
 		}
 		return nil, errors.New("illegal base64 data")
 	}
@@ -85,6 +96,44 @@ func stubClientPost(c *http.Client, url, contentType string, body io.Reader) (*h
 	postCalls++
 	return nil, errors.New("stub: connection refused")
 }
+
+// sync.Map by its documented contract (sequential use): an association list per map.
+type smEntry struct {
+	m    *sync.Map
+	k, v any
+}
+
+var smEntries []smEntry
+
+func stubSyncMapLoad(m *sync.Map, key any) (any, bool) {
+	for _, e := range smEntries {
+		if e.m == m && e.k == key {
+			return e.v, true
+		}
+	}
+	return nil, false
+}
+
+func stubSyncMapStore(m *sync.Map, key, value any) {
+	for i := range smEntries {
+		if smEntries[i].m == m && smEntries[i].k == key {
+			smEntries[i].v = value
+			return
+		}
+	}
+	smEntries = append(smEntries, smEntry{m, key, value})
+}
+
+func stubSyncMapLoadOrStore(m *sync.Map, key, value any) (any, bool) {
+	if v, ok := stubSyncMapLoad(m, key); ok {
+		return v, true
+	}
+	smEntries = append(smEntries, smEntry{m, key, value})
+	return value, false
+}
+
+// oneFP: 32 bytes of 0x01
+const oneFP = "AQEBAQEBAQEBAQEBAQEBAQEBAQEBAQEBAQEBAQEBAQE="
 
 const zeroFP = "AAAAAAAAAAAAAAAAAAAAAAAAAAAAAAAAAAAAAAAAAAA="
 
@@ -202,6 +251,9 @@ func HarnessC13Go() {
 		switch kind {
 		case 1:
 			conf.Fingerprint = "sha256//" + zeroFP
+			if call == 1 {
+				conf.Fingerprint = "sha256//" + oneFP // a different pin for the second call
+			}
 		case 2:
 			conf.Fingerprint = "not-base64!"
 		case 3:
@@ -228,6 +280,25 @@ func HarnessC13Go() {
 			}
 			if kind == 1 {
 				verifAssert(transportPinned(postClient), "C13.go.pinned-call-uses-verifier")
+				// the verifier in force for THIS call decides by THIS call's pin, whatever earlier calls used
+				if t, ok := postClient.Transport.(*http.Transport); ok && t.TLSClientConfig != nil && t.TLSClientConfig.VerifyConnection != nil {
+					var pinByte byte
+					if conf.Fingerprint == "sha256//"+oneFP {
+						pinByte = 1
+					}
+					n0 := len(stubHashes)
+					stubCertN = 0
+					verr := t.TLSClientConfig.VerifyConnection(tls.ConnectionState{PeerCertificates: []*x509.Certificate{{}}})
+					if len(stubHashes) == n0+1 {
+						same := true
+						for j := 0; j < 32; j++ {
+							if stubHashes[n0][j] != pinByte {
+								same = false
+							}
+						}
+						verifAssert((verr == nil) == same, "C13.go.call-verifies-against-its-own-pin")
+					}
+				}
 			}
 		}
 		// process-wide defaults untouched
